@@ -766,3 +766,291 @@ Proof.
     split; [congruence|].
     apply (Repr_key_target s ty xr t e _ HG Ht Hin Rx0 eq_refl).
 Qed.
+
+(* ================= E. the simulation relation ================================================================== *)
+Definition sget (hs : list (Z * Z)) (slot : Z) : Z := match zassoc slot hs with Some id => id | None => FAILV end.
+Definition srel (l : lstate) (hs : list (Z * Z)) (ss : list (Z * key)) : Prop :=
+  forall slot, match slot_get slot ss with
+               | Some k => tyok (fst k) /\ ANid2tagref l (sget hs slot) = Some (tag_of_type (fst k), snd k)
+               | None => sget hs slot = FAILV
+               end.
+
+Record Sim (h : hstate) (a : state) : Prop := mkSim {
+  sim_good : Good (h_lib h);
+  sim_nodup : NoDup (keys (anns a));
+  sim_repr : forall x, In x (anns a) <-> Repr (h_lib h) x;
+  sim_sess : sess a = h_sess h;
+  sim_closed : h_sess h = false -> (forall ty, l_tree (h_lib h) ty = None) /\ l_atoms (h_lib h) = [];
+  sim_slots : srel (h_lib h) (h_slots h) (slots a)
+}.
+
+Lemma hslot_sget : forall h slot, hslot h slot = sget (h_slots h) slot. Proof. reflexivity. Qed.
+
+Lemma zassoc_filter_ne : forall (l : list (Z * Z)) slot s', s' <> slot ->
+  zassoc s' (filter (fun p => negb (fst p =? slot)) l) = zassoc s' l.
+Proof.
+  induction l as [|[k v] t IH]; simpl; intros slot s' N; [reflexivity|].
+  destruct (k =? slot) eqn:E; simpl.
+  - apply Z.eqb_eq in E. subst. destruct (s' =? slot) eqn:E2; [apply Z.eqb_eq in E2; contradiction | apply IH; assumption].
+  - destruct (s' =? k); [reflexivity | apply IH; assumption].
+Qed.
+Lemma sget_set : forall hs slot id s', sget ((slot, id) :: filter (fun p => negb (fst p =? slot)) hs) s' = if s' =? slot then id else sget hs s'.
+Proof.
+  intros. unfold sget. simpl. destruct (s' =? slot) eqn:E; [reflexivity|]. apply Z.eqb_neq in E. rewrite zassoc_filter_ne by assumption. reflexivity.
+Qed.
+Lemma slot_get_filter_ne : forall (l : list (Z * key)) slot s', s' <> slot ->
+  slot_get s' (filter (fun p => negb (fst p =? slot)) l) = slot_get s' l.
+Proof.
+  induction l as [|[k v] t IH]; simpl; intros slot s' N; [reflexivity|].
+  destruct (k =? slot) eqn:E; simpl.
+  - apply Z.eqb_eq in E. subst. destruct (s' =? slot) eqn:E2; [apply Z.eqb_eq in E2; contradiction | apply IH; assumption].
+  - destruct (s' =? k); [reflexivity | apply IH; assumption].
+Qed.
+Lemma slot_get_filter_eq : forall (l : list (Z * key)) slot, slot_get slot (filter (fun p => negb (fst p =? slot)) l) = None.
+Proof.
+  induction l as [|[k v] t IH]; simpl; intros slot; [reflexivity|].
+  destruct (k =? slot) eqn:E; simpl; [apply IH|]. rewrite Z.eqb_sym, E. apply IH.
+Qed.
+Lemma slot_get_set : forall l slot k s', slot_get s' (slot_set slot k l) = if s' =? slot then Some k else slot_get s' l.
+Proof.
+  intros. unfold slot_set. simpl. destruct (s' =? slot) eqn:E; [reflexivity|]. apply Z.eqb_neq in E. apply slot_get_filter_ne. assumption.
+Qed.
+Lemma slot_get_clear : forall l slot s', slot_get s' (slot_clear slot l) = if s' =? slot then None else slot_get s' l.
+Proof.
+  intros. unfold slot_clear. destruct (s' =? slot) eqn:E.
+  - apply Z.eqb_eq in E. subst. apply slot_get_filter_eq.
+  - apply Z.eqb_neq in E. apply slot_get_filter_ne. assumption.
+Qed.
+
+(** a library call that keeps the tag/ref of every valid identifier keeps the slot relation; one slot may be rebound *)
+Lemma srel_keep : forall l l' hs ss, srel l hs ss ->
+  (forall id tr, ANid2tagref l id = Some tr -> ANid2tagref l' id = Some tr) -> srel l' hs ss.
+Proof.
+  intros l l' hs ss H Hk slot. specialize (H slot). destruct (slot_get slot ss); [|assumption]. destruct H as [A B]. auto.
+Qed.
+Lemma srel_bind : forall l hs ss slot id k, srel l hs ss -> tyok (fst k) -> ANid2tagref l id = Some (tag_of_type (fst k), snd k) ->
+  srel l ((slot, id) :: filter (fun p => negb (fst p =? slot)) hs) (slot_set slot k ss).
+Proof.
+  intros l hs ss slot id k H T B s'. rewrite slot_get_set, sget_set. destruct (s' =? slot); [auto | apply H].
+Qed.
+Lemma srel_unbind : forall l hs ss slot, srel l hs ss ->
+  srel l ((slot, FAILV) :: filter (fun p => negb (fst p =? slot)) hs) (slot_clear slot ss).
+Proof.
+  intros l hs ss slot H s'. rewrite slot_get_clear, sget_set. destruct (s' =? slot); [reflexivity | apply H].
+Qed.
+
+(** results *)
+Definition accepts (sr : res) (mr : mres) : Prop :=
+  match sr, mr with
+  | RFail, MFail => True
+  | ROk v bs, MOk v' bs' =>
+      (v = v' \/ exists n l l', v = n :: l /\ v' = n :: l' /\ Permutation l l') /\ Forall2 (fun alts b => In b alts) bs bs'
+  | _, _ => False
+  end.
+
+Definition ref_of (mr : mres) : Z := match mr with MOk [_; r] _ => r | _ => 0 end.
+Definition fill (o : op) (mr : mres) : op :=
+  match o with
+  | OCreate slot ty g r _ => OCreate slot ty g r (ref_of mr)
+  | OCreatef slot ty _ => OCreatef slot ty (ref_of mr)
+  | OSelect slot ty i _ => OSelect slot ty i (ref_of mr)
+  | _ => o
+  end.
+
+(** the AN-interface operations and the ranges of their arguments (C passes uint16 tags and refs) *)
+Definition u16 (z : Z) : Prop := 0 <= z < 65536.
+Definition an_op (o : op) : Prop :=
+  match o with
+  | OStart | OEnd | OFileInfo | OEndaccess _ | OWrite _ _ | ORead _ _ | OLen _ | OId2tagref _ | OCreatef _ _ _ => True
+  | OCreate _ _ g r _ => u16 g /\ u16 r
+  | OSelect _ ty _ _ | OSelectAll ty => tyok ty
+  | ONumann ty g r | OAnnlist ty g r => tyok ty
+  | OTagref2id _ g r => u16 r
+  | _ => False
+  end.
+
+(** a valid identifier denotes an existing annotation *)
+Lemma valid_id_repr : forall s id ty ref, Good s -> tyok ty -> ANid2tagref s id = Some (tag_of_type ty, ref) ->
+  exists x, Repr s x /\ a_key x = (ty, ref).
+Proof.
+  intros s id ty ref HG Hty Hid. pose proof HG as [HI HT].
+  destruct (proj1 (ANid2tagref_spec s id ty ref HI) (conj Hid Hty)) as [nd [Ez [K1 [K2 _]]]].
+  destruct (inv_owner _ HI id nd Ez) as [ty2 [t [e [Ht [Hin _]]]]].
+  destruct (inv_tree _ HI ty2 t Ht) as [Hty2 [_ Hent]]. destruct (Hent _ _ Hin) as [Hr [Hk _]]. rewrite MAX_REF_val in Hr.
+  assert (ty2 = ty) by (rewrite <- K1, Hk; symmetry; apply key_type; unfold tyok in Hty2; lia). subst ty2.
+  assert (Href : e_annref e = ref) by (rewrite <- K2, Hk; symmetry; apply key_ref; unfold tyok in Hty; lia).
+  destruct (tree_repr s ty t HG Ht) as [P _]. destruct (P _ _ Hin) as [_ [x [X1 [X2 _]]]]. exists x. rewrite <- Href. auto.
+Qed.
+
+(* ================= F. reading ================================================================================ *)
+Lemma read_image_gen : forall s id maxlen nd tag d,
+  1 <= maxlen ->
+  zassoc id (l_atoms s) = Some nd -> atype2tag (AN_KEY2TYPE (n_key nd)) = Some tag ->
+  hfind tag (AN_KEY2REF (n_key nd)) (l_dds s) = Some d -> (is_data_tag tag = true -> 4 <= zlen (d_data d)) ->
+  ANIreadann s id maxlen = Some (buffer_image (is_label_tag tag) (payload_text tag (d_data d)) maxlen) /\
+  ANIannlen s id = zlen (payload_text tag (d_data d)).
+Proof.
+  intros s id maxlen nd tag d Hm Hz Ht Hf H4.
+  unfold ANIreadann, ANIannlen. rewrite Hz, Ht, Hf.
+  set (txt := payload_text tag (d_data d)).
+  assert (Hlen : zlen (d_data d) - (if is_data_tag tag then 4 else 0) = zlen txt).
+  { unfold txt, payload_text, zlen in *. destruct (is_data_tag tag); [rewrite skipn_length; specialize (H4 eq_refl); lia | lia]. }
+  rewrite Hlen. fold txt. split; [|reflexivity].
+  unfold ANIreadann_label_trunc, ANIreadann_desc_trunc, ANIreadann_reads. rewrite !truth_gt.
+  unfold buffer_image, zlen in *.
+  set (L := length txt) in *. set (m := Z.to_nat maxlen).
+  assert (Em : maxlen = Z.of_nat m) by (unfold m; rewrite Z2Nat.id; lia).
+  destruct (is_label_tag tag).
+  - (* label *)
+    destruct (maxlen - 1 <? Z.of_nat L) eqn:E.
+    + apply Z.ltb_lt in E. rewrite Z.min_r by lia.
+      replace (maxlen - 1 <? 0) with false by (symmetry; apply Z.ltb_ge; lia).
+      assert (En : maxlen - 1 = Z.of_nat (m - 1)) by lia. rewrite En.
+      rewrite Nat2Z.id.
+      rewrite image_desc by lia. rewrite image_label by lia.
+      rewrite app_length, firstn_length_le by lia. simpl. repeat f_equal; lia.
+    + apply Z.ltb_ge in E. rewrite Z.min_l by lia.
+      replace (Z.of_nat L <? 0) with false by (symmetry; apply Z.ltb_ge; lia).
+      rewrite Nat2Z.id.
+      rewrite image_desc by lia. rewrite image_label by lia.
+      rewrite app_length, firstn_length_le by lia. simpl. repeat f_equal; lia.
+  - (* description *)
+    destruct (maxlen <? Z.of_nat L) eqn:E.
+    + apply Z.ltb_lt in E. rewrite Z.min_r by lia.
+      replace (maxlen <? 0) with false by (symmetry; apply Z.ltb_ge; lia).
+      rewrite Em. rewrite Nat2Z.id.
+      rewrite image_desc by lia. rewrite app_nil_r. rewrite firstn_length_le by lia. reflexivity.
+    + apply Z.ltb_ge in E. rewrite Z.min_l by lia.
+      replace (Z.of_nat L <? 0) with false by (symmetry; apply Z.ltb_ge; lia).
+      rewrite Nat2Z.id.
+      rewrite image_desc by lia. rewrite app_nil_r. rewrite firstn_length_le by lia. reflexivity.
+Qed.
+
+(* ================= G. one step of the harness against one step of the specification ======================== *)
+Lemma failv_invalid : forall l, Inv l -> zassoc FAILV (l_atoms l) = None.
+Proof.
+  intros l HI. destruct (zassoc FAILV (l_atoms l)) as [nd|] eqn:E; [|reflexivity].
+  pose proof (inv_ids _ HI _ _ (zassoc_In _ _ _ _ E)). unfold FAILV in *. lia.
+Qed.
+
+Lemma slot_cases : forall h a slot, Sim h a ->
+  (slot_get slot (slots a) = None /\ zassoc (hslot h slot) (l_atoms (h_lib h)) = None /\ ANid2tagref (h_lib h) (hslot h slot) = None) \/
+  (exists ty ref x, slot_get slot (slots a) = Some (ty, ref) /\ tyok ty /\
+     ANid2tagref (h_lib h) (hslot h slot) = Some (tag_of_type ty, ref) /\
+     lookup (ty, ref) (anns a) = Some x /\ Repr (h_lib h) x /\ a_key x = (ty, ref)).
+Proof.
+  intros h a slot HS. pose proof (sim_slots _ _ HS slot) as H. rewrite <- hslot_sget in H.
+  destruct (slot_get slot (slots a)) as [[ty ref]|] eqn:E.
+  - right. destruct H as [T B]. simpl in T, B. destruct (valid_id_repr _ _ _ _ (sim_good _ _ HS) T B) as [x [X1 X2]].
+    exists ty, ref, x. split; [reflexivity|]. split; [assumption|]. split; [assumption|]. split; [|split; assumption].
+    rewrite <- X2. apply In_lookup; [apply (sim_nodup _ _ HS) | apply (sim_repr _ _ HS); assumption].
+  - left. split; [reflexivity|]. rewrite H. pose proof (failv_invalid _ (proj1 (sim_good _ _ HS))) as F.
+    split; [assumption|]. unfold ANid2tagref. rewrite F. reflexivity.
+Qed.
+
+Lemma id_node : forall l id ty ref, Inv l -> tyok ty -> ANid2tagref l id = Some (tag_of_type ty, ref) ->
+  exists nd, zassoc id (l_atoms l) = Some nd /\ atype2tag (AN_KEY2TYPE (n_key nd)) = Some (tag_of_type ty) /\ AN_KEY2REF (n_key nd) = ref.
+Proof.
+  intros l id ty ref HI Hty H. destruct (proj1 (ANid2tagref_spec l id ty ref HI) (conj H Hty)) as [nd [A [B [C _]]]].
+  exists nd. split; [assumption|]. split; [rewrite B; apply atype2tag_iff; auto | assumption].
+Qed.
+
+Lemma sim_read : forall h a slot maxlen h' mr a' sr, Sim h a ->
+  mstep h (ORead slot maxlen) = (h', mr) -> step a (ORead slot maxlen) = (a', sr) ->
+  sr = RUnspec \/ (Sim h' a' /\ accepts sr mr).
+Proof.
+  intros h a slot maxlen h' mr a' sr HS HM HSp. unfold mstep in HM. cbv beta iota zeta in HM. simpl in HSp. unfold with_slot in HSp.
+  pose proof (sim_good _ _ HS) as [HI HT].
+  destruct (slot_cases h a slot HS) as [[E1 [E2 _]]|[ty [ref [x [E1 [T [B [L [Rx Kx]]]]]]]]]; rewrite E1 in HSp.
+  - unfold ANIreadann in HM. rewrite E2 in HM. inversion HM; inversion HSp; subst. right. split; [assumption | exact I].
+  - rewrite L in HSp. destruct (id_node _ _ _ _ HI T B) as [nd [Z1 [Z2 Z3]]].
+    destruct x as [[xt xr] xg xf xtx]. cbn in Kx. inversion Kx; subst xt xr. cbn [a_text a_key fst] in HSp.
+    destruct Rx as [_ [[d [D1 [D2 [D3 [D4 D5]]]]]|[X1 [X2 _]]]]; cbn [a_key a_text fst snd] in *.
+    + rewrite D4 in HSp. destruct (maxlen <? 1) eqn:Em; [inversion HSp; left; reflexivity|]. apply Z.ltb_ge in Em.
+      pose proof (hfind_In _ _ _ d (tf_nodup _ HT) D1 D2 D3) as Hf. rewrite <- Z3 in Hf.
+      destruct (read_image_gen _ _ maxlen nd _ d Em Z1 Z2 Hf) as [R1 _].
+      { intros X. apply (tf_len _ HT d D1). rewrite D2. exact X. }
+      rewrite R1 in HM. inversion HM; inversion HSp; subst. right. split; [assumption|]. simpl. split; [left; reflexivity|].
+      constructor; [|constructor]. rewrite D2, (is_label_tag_type ty T). left. reflexivity.
+    + rewrite X1 in HSp. unfold ANIreadann in HM. rewrite Z1, Z2, Z3, X2 in HM. inversion HM; inversion HSp; subst. right. split; [assumption | exact I].
+Qed.
+
+Lemma sim_len : forall h a slot h' mr a' sr, Sim h a ->
+  mstep h (OLen slot) = (h', mr) -> step a (OLen slot) = (a', sr) -> sr = RUnspec \/ (Sim h' a' /\ accepts sr mr).
+Proof.
+  intros h a slot h' mr a' sr HS HM HSp. unfold mstep in HM. cbv beta iota zeta in HM. simpl in HSp. unfold with_slot in HSp.
+  pose proof (sim_good _ _ HS) as [HI HT].
+  destruct (slot_cases h a slot HS) as [[E1 [E2 _]]|[ty [ref [x [E1 [T [B [L [Rx Kx]]]]]]]]]; rewrite E1 in HSp.
+  - unfold ANIannlen in HM. rewrite E2 in HM. simpl in HM. inversion HM; inversion HSp; subst. right. split; [assumption | exact I].
+  - rewrite L in HSp. destruct (id_node _ _ _ _ HI T B) as [nd [Z1 [Z2 Z3]]].
+    destruct x as [[xt xr] xg xf xtx]. cbn in Kx. inversion Kx; subst xt xr. cbn [a_text a_key fst] in HSp.
+    destruct Rx as [_ [[d [D1 [D2 [D3 [D4 D5]]]]]|[X1 [X2 _]]]]; cbn [a_key a_text fst snd] in *.
+    + rewrite D4 in HSp.
+      pose proof (hfind_In _ _ _ d (tf_nodup _ HT) D1 D2 D3) as Hf. rewrite <- Z3 in Hf.
+      destruct (read_image_gen _ _ 1 nd _ d ltac:(lia) Z1 Z2 Hf) as [_ R2].
+      { intros X. apply (tf_len _ HT d D1). rewrite D2. exact X. }
+      rewrite R2 in HM.
+      assert (Hn : (zlen (payload_text (tag_of_type ty) (d_data d)) =? FAILV) = false) by (apply Z.eqb_neq; unfold zlen, FAILV; lia).
+      rewrite Hn in HM. inversion HM; inversion HSp; subst. right. split; [assumption|]. simpl. rewrite D2. split; [left; reflexivity | constructor].
+    + rewrite X1 in HSp. unfold ANIannlen in HM. rewrite Z1, Z2, Z3, X2 in HM. simpl in HM. inversion HM; inversion HSp; subst. right. split; [assumption | exact I].
+Qed.
+
+Lemma sim_id2tagref : forall h a slot h' mr a' sr, Sim h a ->
+  mstep h (OId2tagref slot) = (h', mr) -> step a (OId2tagref slot) = (a', sr) -> sr = RUnspec \/ (Sim h' a' /\ accepts sr mr).
+Proof.
+  intros h a slot h' mr a' sr HS HM HSp. unfold mstep in HM. cbv beta iota zeta in HM. simpl in HSp. unfold with_slot in HSp.
+  destruct (slot_cases h a slot HS) as [[E1 [_ E2]]|[ty [ref [x [E1 [T [B [L [Rx Kx]]]]]]]]]; rewrite E1 in HSp.
+  - rewrite E2 in HM. inversion HM; inversion HSp; subst. right. split; [assumption | exact I].
+  - rewrite L in HSp. rewrite B in HM. inversion HM; inversion HSp; subst. right. split; [assumption|]. rewrite Kx. simpl.
+    split; [left; reflexivity | constructor].
+Qed.
+
+Lemma sim_endaccess : forall h a slot h' mr a' sr, Sim h a ->
+  mstep h (OEndaccess slot) = (h', mr) -> step a (OEndaccess slot) = (a', sr) -> sr = RUnspec \/ (Sim h' a' /\ accepts sr mr).
+Proof.
+  intros. simpl in *. inversion H0; inversion H1; subst. right. split; [assumption|]. simpl. split; [left; reflexivity | constructor].
+Qed.
+
+Lemma TF_ext : forall l l', TF l -> l_dds l' = l_dds l -> l_tree l' = l_tree l -> l_atoms l' = l_atoms l -> l_num l' = l_num l -> TF l'.
+Proof.
+  intros l l' [A B C D E F G H] Hd Ht Ha Hn. constructor; rewrite ?Hd, ?Ht, ?Ha, ?Hn; assumption.
+Qed.
+Lemma Good_ext : forall l l', Good l -> l_dds l' = l_dds l -> l_tree l' = l_tree l -> l_atoms l' = l_atoms l ->
+  l_num l' = l_num l -> l_next l' = l_next l -> Good l'.
+Proof.
+  intros l l' [HI HT] Hd Ht Ha Hn Hx. split; [|eapply TF_ext; eassumption].
+  apply (Inv_same_tables l); [assumption | repeat split; assumption | rewrite Hd; apply (inv_refs _ HI)].
+Qed.
+
+Lemma written_In : forall l x, In x (written l) <-> In x l /\ a_text x <> None.
+Proof.
+  intros. unfold written. rewrite filter_In. destruct (a_text x); split; intros [A B]; split; auto; try discriminate; try contradiction.
+Qed.
+
+Lemma sim_start : forall h a h' mr a' sr, Sim h a ->
+  mstep h OStart = (h', mr) -> step a OStart = (a', sr) -> sr = RUnspec \/ (Sim h' a' /\ accepts sr mr).
+Proof.
+  intros h a h' mr a' sr HS HM HSp. simpl in HM, HSp. rewrite (sim_sess _ _ HS) in HSp.
+  destruct (h_sess h) eqn:Es; inversion HM; inversion HSp; subst; [left; reflexivity|]. right.
+  split; [|simpl; split; [left; reflexivity | constructor]].
+  destruct (sim_closed _ _ HS Es) as [Cl1 Cl2].
+  constructor; simpl; [apply (sim_good _ _ HS) | apply (sim_nodup _ _ HS) | apply (sim_repr _ _ HS) | reflexivity | discriminate |].
+  intros slot. simpl. pose proof (sim_slots _ _ HS slot) as X. destruct (slot_get slot (slots a)) as [k|]; [|assumption].
+  destruct X as [_ X]. unfold ANid2tagref in X. rewrite Cl2 in X. simpl in X. discriminate.
+Qed.
+
+Lemma sim_end : forall h a h' mr a' sr, Sim h a ->
+  mstep h OEnd = (h', mr) -> step a OEnd = (a', sr) -> sr = RUnspec \/ (Sim h' a' /\ accepts sr mr).
+Proof.
+  intros h a h' mr a' sr HS HM HSp. simpl in HM, HSp. rewrite (sim_sess _ _ HS) in HSp.
+  destruct (h_sess h) eqn:Es; inversion HM; inversion HSp; subst; right; [|split; [assumption | exact I]].
+  split; [|simpl; split; [left; reflexivity | constructor]].
+  destruct (ANend_Good _ (sim_good _ _ HS)) as [G [Hd [Htr [Hat HR]]]].
+  constructor; simpl.
+  - apply (Good_ext (ANend (h_lib h))); auto.
+  - apply NoDup_filter_keys. apply (sim_nodup _ _ HS).
+  - intros x. rewrite written_In. rewrite (sim_repr _ _ HS). rewrite <- HR. split; intros Rx; (eapply Repr_ext; [| |exact Rx]; reflexivity).
+  - reflexivity.
+  - intros _. split; [intros ty; reflexivity | exact Hat].
+  - intros slot. reflexivity.
+Qed.
